@@ -48,7 +48,7 @@ type Machine struct {
 func NewMachine(t *rapid.T, r *rec.Recorder) *Machine {
 	n := rapid.SampledFrom([]int{2, 2, 3}).Draw(t, "chains")
 	seed := rapid.SliceOfN(rapid.Byte(), 2, 2).Draw(t, "seed")
-	return &Machine{T: t, R: r, W: NewWorld(n, seed), CallKinds: []string{"", "", "", "ok", "revert", "hookfail", "agent", "agent"},
+	return &Machine{T: t, R: r, W: NewWorld(n, seed), CallKinds: []string{"", "", "", "ok", "revert", "hookfail", "gasbomb", "agent", "agent"},
 		Out: map[string]*big.Int{}, Bind: map[string]*big.Int{}}
 }
 
